@@ -103,3 +103,76 @@ PROPS["C04"] = dict(
              shards=dict(quick=4, thorough=16), timeout=dict(quick=300, thorough=1800)),
     ],
 )
+
+_CRDT_NOTE = ("Trusted: Go toolchain, rapid, the reference LWW table / map model in harness/internal/dst (decoding of the real broadcast "
+              "bytes included), the verif hook that lets the harness own distributed.clock. Gossip is delivered by hand through the real "
+              "NotifyMsg / LocalState / MergeRemoteState; memberlist itself is not run.")
+
+PROPS["C08"] = dict(
+    level="exploration",
+    manifest=dict(
+        text=("Real distributed.State replicas fed with the same multiset of real broadcasts under generated permutations, "
+              "duplications (1-3x) and batchings, origins with clock offsets 0/±1s/±1h included; for update sets of <= 5 updates ALL "
+              "permutations x all contiguous batchings x one duplicated element are enumerated. Oracle: every node lists exactly the "
+              "state of a reference last-writer-wins table built from the decoded updates, and re-delivery changes nothing."),
+        note=_CRDT_NOTE + " Session ids are created at most once (they are UUIDs in the broker). Cases where two different updates of one key tie on the timestamp are excluded and counted.",
+        technique="property-based testing with a reference LWW model; exhaustive enumeration of delivery schedules for small update sets",
+    ),
+    rule=("a case = origin phase (2-3 origins with clock offsets performing 1-12 real local operations on sessions, subscriptions — "
+          "including neighbouring filters and bulk removals — and retained topics; every queued broadcast is one update; updates may be "
+          "shared between origins immediately) + delivery schedules (batches of update indices, repeats allowed) for 2-3 fresh replicas and "
+          "for the origins. TestAllDeliveries enumerates all schedules for sets of <= 5 updates (counter deliveries_enumerated). "
+          "Non-trivial = some key is touched by >= 2 updates of which at least one adds and one removes. Distinct = distinct case."),
+    assumptions=[
+        "distinct updates to one key carry distinct timestamps, or agree on what is visible (otherwise the case is excluded and counted)",
+        "a session id is created at most once (UUIDs); everything else unrestricted",
+        "an origin has 'received' its own writes and what was shared with it; it is then delivered exactly what it misses (plus optional repeats)",
+    ],
+    runs=[
+        dict(name="regress", pkg="c08", run="TestRegress"),
+        dict(name="random", pkg="c08", run="TestRandom", checks=dict(quick=40000, thorough=800000),
+             shards=dict(quick=8, thorough=16), timeout=dict(quick=300, thorough=1800)),
+        dict(name="alldeliveries", pkg="c08", run="TestAllDeliveries", checks=dict(quick=1600, thorough=40000),
+             shards=dict(quick=8, thorough=16), timeout=dict(quick=300, thorough=1800)),
+    ],
+)
+
+PROPS["C09"] = dict(
+    level="exploration",
+    manifest=dict(
+        text=("Lock-step mirror test: after EACH generated operation on node A the broadcasts queued by that operation are delivered to a "
+              "mirror B; A, B and an independent map model of the operation semantics must list the same sessions, subscriptions and retained "
+              "messages, and a bulk operation's broadcast must name every entry the model says it touched. Random histories (1-30 ops, rapid)."),
+        note=_CRDT_NOTE,
+        technique="model-based property testing: lock-step differential (origin vs. mirror fed by the broadcasts vs. map model)",
+    ),
+    rule=("a case = up to 8 operations on a peer P (whose gossip reaches A and B) followed by 1-30 operations on A over 4 sessions x 4 filters "
+          "x 4 topics x peers {A,P}: session Create/Delete/DeletePeer, subscription Create/Delete/DeleteSession/DeletePeer, retained Set/Delete; "
+          "checked after every operation. Non-trivial = a bulk operation touches >= 2 entries. Distinct = distinct case."),
+    assumptions=["node clock strictly increasing (one writer at a time)", "visible state = All()/Get('#') through the public read API"],
+    runs=[
+        dict(name="regress", pkg="c09", run="TestRegress"),
+        dict(name="random", pkg="c09", run="TestRandom", checks=dict(quick=60000, thorough=1000000),
+             shards=dict(quick=8, thorough=16), timeout=dict(quick=300, thorough=1800)),
+    ],
+)
+
+PROPS["C10"] = dict(
+    level="exploration",
+    manifest=dict(
+        text=("Two real nodes run generated histories while a generated subset of the gossip between them is lost, then exchange full-state "
+              "snapshots (A->B, B->A, both orders; B possibly brand new). Oracle: per-node reference LWW tables including tombstones; after a "
+              "merge the receiver must list exactly the LWW merge of both histories, a fresh receiver exactly what the sender lists, both "
+              "directions => identical; the snapshot bytes must carry every stored entry exactly once."),
+        note=_CRDT_NOTE,
+        technique="property-based testing with a reference LWW model over generated divergent histories and loss patterns",
+    ),
+    rule=("a case = 1-24 steps (node, operation, delivered?) + exchange mode + fresh-B flag. Non-trivial = A holds >= 2 entries of one kind and "
+          "at least one removal made on A did not reach B before the exchange. Distinct = distinct case."),
+    assumptions=["one global strictly increasing clock (clock skew is C08's subject)", "the model tracks each node during the history and is itself compared with the node before the exchange"],
+    runs=[
+        dict(name="regress", pkg="c10", run="TestRegress"),
+        dict(name="random", pkg="c10", run="TestRandom", checks=dict(quick=60000, thorough=1000000),
+             shards=dict(quick=8, thorough=16), timeout=dict(quick=300, thorough=1800)),
+    ],
+)
